@@ -1,5 +1,5 @@
 // auto-generated: "lalrpop 0.23.1"
-// sha3: 1aceab37680dc0e9d88b84db948c9e1e9a653e8b937f5c63a9bb664e9099db70
+// sha3: d68c2f09c0a904c99796ae7f4238df709b5b2830350b0cffd8efccb3b21ea8fb
 use crate::rt::*;
 #[allow(unused_extern_crates)]
 extern crate lalrpop_util as __lalrpop_util;
@@ -693,14 +693,12 @@ fn __action2<
 >(
     (_, l, _): (i64, i64, i64),
     (_, c0, _): (i64, Tok, i64),
-    (_, pL1, _): (i64, i64, i64),
     (_, c1, _): (i64, Tree, i64),
-    (_, pL2, _): (i64, i64, i64),
     (_, c2, _): (i64, Tok, i64),
     (_, r, _): (i64, i64, i64),
 ) -> Tree
 {
-    { probe("S#1", 1, 'L', pL1); probe("S#1", 2, 'L', pL2); node("S#1", l, r, vec![Tree::from(c0), Tree::from(c1), Tree::from(c2)]) }
+    node("S#1", l, r, vec![Tree::from(c0), Tree::from(c1), Tree::from(c2)])
 }
 
 #[allow(clippy::too_many_arguments, clippy::needless_lifetimes, clippy::just_underscores_and_digits, clippy::extra_unused_type_parameters)]
@@ -722,13 +720,11 @@ fn __action4<
     (_, l, _): (i64, i64, i64),
     (_, c0, _): (i64, Tok, i64),
     (_, c1, _): (i64, Tree, i64),
-    (_, pL2, _): (i64, i64, i64),
     (_, c2, _): (i64, Tok, i64),
-    (_, pL3, _): (i64, i64, i64),
     (_, r, _): (i64, i64, i64),
 ) -> Tree
 {
-    { probe("S#3", 2, 'L', pL2); probe("S#3", 3, 'L', pL3); node("S#3", l, r, vec![Tree::from(c0), Tree::from(c1), Tree::from(c2)]) }
+    node("S#3", l, r, vec![Tree::from(c0), Tree::from(c1), Tree::from(c2)])
 }
 
 #[allow(clippy::too_many_arguments, clippy::needless_lifetimes, clippy::just_underscores_and_digits, clippy::extra_unused_type_parameters)]
@@ -736,39 +732,34 @@ fn __action5<
 >(
     (_, l, _): (i64, i64, i64),
     (_, c0, _): (i64, Tok, i64),
-    (_, pR1, _): (i64, i64, i64),
     (_, c1, _): (i64, Tree, i64),
-    (_, pR2, _): (i64, i64, i64),
     (_, r, _): (i64, i64, i64),
 ) -> Tree
 {
-    { probe("X#0", 1, 'R', pR1); probe("X#0", 2, 'R', pR2); node("X#0", l, r, vec![Tree::from(c0), Tree::from(c1)]) }
+    node("X#0", l, r, vec![Tree::from(c0), Tree::from(c1)])
 }
 
 #[allow(clippy::too_many_arguments, clippy::needless_lifetimes, clippy::just_underscores_and_digits, clippy::extra_unused_type_parameters)]
 fn __action6<
 >(
     (_, l, _): (i64, i64, i64),
-    (_, pL0, _): (i64, i64, i64),
     (_, c0, _): (i64, Tok, i64),
     (_, r, _): (i64, i64, i64),
 ) -> Tree
 {
-    { probe("X#1", 0, 'L', pL0); node("X#1", l, r, vec![Tree::from(c0)]) }
+    node("X#1", l, r, vec![Tree::from(c0)])
 }
 
 #[allow(clippy::too_many_arguments, clippy::needless_lifetimes, clippy::just_underscores_and_digits, clippy::extra_unused_type_parameters)]
 fn __action7<
 >(
     (_, l, _): (i64, i64, i64),
-    (_, pL0, _): (i64, i64, i64),
     (_, c0, _): (i64, Tok, i64),
-    (_, pL1, _): (i64, i64, i64),
     (_, c1, _): (i64, Tree, i64),
     (_, r, _): (i64, i64, i64),
 ) -> Tree
 {
-    { probe("Y#0", 0, 'L', pL0); probe("Y#0", 1, 'L', pL1); node("Y#0", l, r, vec![Tree::from(c0), Tree::from(c1)]) }
+    node("Y#0", l, r, vec![Tree::from(c0), Tree::from(c1)])
 }
 
 #[allow(clippy::too_many_arguments, clippy::needless_lifetimes, clippy::just_underscores_and_digits, clippy::extra_unused_type_parameters)]
@@ -776,11 +767,10 @@ fn __action8<
 >(
     (_, l, _): (i64, i64, i64),
     (_, c0, _): (i64, Tok, i64),
-    (_, pR1, _): (i64, i64, i64),
     (_, r, _): (i64, i64, i64),
 ) -> Tree
 {
-    { probe("Y#1", 1, 'R', pR1); node("Y#1", l, r, vec![Tree::from(c0)]) }
+    node("Y#1", l, r, vec![Tree::from(c0)])
 }
 
 #[allow(clippy::needless_lifetimes, clippy::clone_on_copy)]
@@ -841,31 +831,15 @@ fn __action12<
 {
     let __start0 = __0.0.clone();
     let __end0 = __0.0.clone();
-    let __start1 = __0.2.clone();
-    let __end1 = __1.0.clone();
-    let __start2 = __1.2.clone();
-    let __end2 = __2.0.clone();
     let __temp0 = __action10(
         &__start0,
         &__end0,
     );
     let __temp0 = (__start0, __temp0, __end0);
-    let __temp1 = __action10(
-        &__start1,
-        &__end1,
-    );
-    let __temp1 = (__start1, __temp1, __end1);
-    let __temp2 = __action10(
-        &__start2,
-        &__end2,
-    );
-    let __temp2 = (__start2, __temp2, __end2);
     __action2(
         __temp0,
         __0,
-        __temp1,
         __1,
-        __temp2,
         __2,
         __3,
     )
@@ -909,32 +883,16 @@ fn __action14<
 {
     let __start0 = __0.0.clone();
     let __end0 = __0.0.clone();
-    let __start1 = __1.2.clone();
-    let __end1 = __2.0.clone();
-    let __start2 = __2.2.clone();
-    let __end2 = __3.0.clone();
     let __temp0 = __action10(
         &__start0,
         &__end0,
     );
     let __temp0 = (__start0, __temp0, __end0);
-    let __temp1 = __action10(
-        &__start1,
-        &__end1,
-    );
-    let __temp1 = (__start1, __temp1, __end1);
-    let __temp2 = __action10(
-        &__start2,
-        &__end2,
-    );
-    let __temp2 = (__start2, __temp2, __end2);
     __action4(
         __temp0,
         __0,
         __1,
-        __temp1,
         __2,
-        __temp2,
         __3,
     )
 }
@@ -944,10 +902,8 @@ fn __action14<
 fn __action15<
 >(
     __0: (i64, Tok, i64),
-    __1: (i64, i64, i64),
-    __2: (i64, Tree, i64),
-    __3: (i64, i64, i64),
-    __4: (i64, i64, i64),
+    __1: (i64, Tree, i64),
+    __2: (i64, i64, i64),
 ) -> Tree
 {
     let __start0 = __0.0.clone();
@@ -962,8 +918,6 @@ fn __action15<
         __0,
         __1,
         __2,
-        __3,
-        __4,
     )
 }
 
@@ -977,21 +931,13 @@ fn __action16<
 {
     let __start0 = __0.0.clone();
     let __end0 = __0.0.clone();
-    let __start1 = __0.0.clone();
-    let __end1 = __0.0.clone();
     let __temp0 = __action10(
         &__start0,
         &__end0,
     );
     let __temp0 = (__start0, __temp0, __end0);
-    let __temp1 = __action10(
-        &__start1,
-        &__end1,
-    );
-    let __temp1 = (__start1, __temp1, __end1);
     __action6(
         __temp0,
-        __temp1,
         __0,
         __1,
     )
@@ -1008,30 +954,14 @@ fn __action17<
 {
     let __start0 = __0.0.clone();
     let __end0 = __0.0.clone();
-    let __start1 = __0.0.clone();
-    let __end1 = __0.0.clone();
-    let __start2 = __0.2.clone();
-    let __end2 = __1.0.clone();
     let __temp0 = __action10(
         &__start0,
         &__end0,
     );
     let __temp0 = (__start0, __temp0, __end0);
-    let __temp1 = __action10(
-        &__start1,
-        &__end1,
-    );
-    let __temp1 = (__start1, __temp1, __end1);
-    let __temp2 = __action10(
-        &__start2,
-        &__end2,
-    );
-    let __temp2 = (__start2, __temp2, __end2);
     __action7(
         __temp0,
-        __temp1,
         __0,
-        __temp2,
         __1,
         __2,
     )
@@ -1043,7 +973,6 @@ fn __action18<
 >(
     __0: (i64, Tok, i64),
     __1: (i64, i64, i64),
-    __2: (i64, i64, i64),
 ) -> Tree
 {
     let __start0 = __0.0.clone();
@@ -1057,7 +986,6 @@ fn __action18<
         __temp0,
         __0,
         __1,
-        __2,
     )
 }
 
@@ -1165,33 +1093,17 @@ fn __action23<
     __1: (i64, Tree, i64),
 ) -> Tree
 {
-    let __start0 = __0.2.clone();
-    let __end0 = __1.0.clone();
-    let __start1 = __1.2.clone();
-    let __end1 = __1.2.clone();
-    let __start2 = __1.2.clone();
-    let __end2 = __1.2.clone();
+    let __start0 = __1.2.clone();
+    let __end0 = __1.2.clone();
     let __temp0 = __action9(
         &__start0,
         &__end0,
     );
     let __temp0 = (__start0, __temp0, __end0);
-    let __temp1 = __action9(
-        &__start1,
-        &__end1,
-    );
-    let __temp1 = (__start1, __temp1, __end1);
-    let __temp2 = __action9(
-        &__start2,
-        &__end2,
-    );
-    let __temp2 = (__start2, __temp2, __end2);
     __action15(
         __0,
-        __temp0,
         __1,
-        __temp1,
-        __temp2,
+        __temp0,
     )
 }
 
@@ -1246,22 +1158,14 @@ fn __action26<
 {
     let __start0 = __0.2.clone();
     let __end0 = __0.2.clone();
-    let __start1 = __0.2.clone();
-    let __end1 = __0.2.clone();
     let __temp0 = __action9(
         &__start0,
         &__end0,
     );
     let __temp0 = (__start0, __temp0, __end0);
-    let __temp1 = __action9(
-        &__start1,
-        &__end1,
-    );
-    let __temp1 = (__start1, __temp1, __end1);
     __action18(
         __0,
         __temp0,
-        __temp1,
     )
 }
 
